@@ -61,7 +61,7 @@ def cases(rng, tier):
 				for cl in cls:
 					for te in tes:
 						for th, tr in (trs if te else trs[:1]):
-							if tier == 'quick' and rng.random() > 0.12:
+							if tier == 'quick' and rng.random() > 0.35:
 								continue
 							yield ('m', side, version, cl, te, body, th, tr, rng.choice((0, 1, 2, 3, 4, 5)))
 
